@@ -174,17 +174,8 @@ def run_case(case):
 
 def main():
     payload = json.load(open(sys.argv[1]))
-    res = []
-    for case in payload["cases"]:
-        t0 = time.time()
-        try:
-            with B.time_limit(300):
-                res.append(run_case(case))
-            res[-1]["secs"] = round(time.time() - t0, 2)
-        except B.CaseTimeout:
-            res.append({"stage": "timeout", "secs": round(time.time() - t0, 2)})
-        except Exception:  # noqa
-            res.append({"crash": traceback.format_exc()[-1500:]})
+    B.warm_up()
+    res = [B.run_forked(run_case, case, 240) for case in payload["cases"]]
     json.dump({"results": res}, open(sys.argv[2], "w"))
 
 
